@@ -142,7 +142,8 @@ class _TaggedWire(object):
         # client-side transport failures: the attempt itself fails with a bare exception (what the HTTP storage
         # client produces: ConnectionRefusedError, TimeoutError, ...), nothing reaches the server
         for f in getattr(g, "vf_client_faults", ()):
-            if f["tag"] in (None, self._tag) and f["server"] == self._vs.name and f["method"] in (None, methname):
+            if (f["tag"] in (None, self._tag) and f["server"] == self._vs.name and f["method"] in (None, methname)
+                    and (f.get("pred") is None or f["pred"](args))):
                 f["seen"] += 1
                 if f["nth"] is None or f["seen"] == f["nth"]:
                     f["fired"] += 1
@@ -199,11 +200,12 @@ def release(g, key):
     return len(queue)
 
 
-def client_fault(g, server, exc, method=None, nth=None, tag=None):
-    """The nth matching request of a client to `server` fails on the client side with a bare exc(...)."""
+def client_fault(g, server, exc, method=None, nth=None, tag=None, pred=None):
+    """The nth matching request of a client to `server` fails on the client side with a bare exc(...).
+    pred(args) narrows the match (e.g. only reads of named share numbers = block fetches, not map-update queries)."""
     if not hasattr(g, "vf_client_faults"):
         g.vf_client_faults = []
-    f = dict(server=server, exc=exc, method=method, nth=nth, tag=tag, seen=0, fired=0)
+    f = dict(server=server, exc=exc, method=method, nth=nth, tag=tag, seen=0, fired=0, pred=pred)
     g.vf_client_faults.append(f)
     return f
 
